@@ -52,6 +52,15 @@ func (e *Engine) fmtArg(v value) (interface{}, *bytesV) {
 			return x.V, nil
 		}
 		return x.V, nil
+	case byteArrayV:
+		bs := make([]byte, len(x.a.b))
+		for i, c := range x.a.b {
+			if !c.Const {
+				return nil, &bytesV{}
+			}
+			bs[i] = byte(c.V)
+		}
+		return bs, nil
 	case *bytesV:
 		if s, ok := x.goString(); ok {
 			if isString(i.t) {
@@ -70,6 +79,11 @@ func (e *Engine) fmtArg(v value) (interface{}, *bytesV) {
 			}
 			return nil, b
 		}
+	}
+	switch i.v.(type) {
+	case structV, arrayV, *sliceV, *mapV:
+		// a composite value whose rendering the model does not know: never guess
+		e.end("unsupported", "M-fmt: formatting of a "+types.TypeString(i.t, nil)+" value")
 	}
 	return fmt.Sprintf("<%s>", types.TypeString(i.t, nil)), nil
 }
